@@ -515,6 +515,13 @@ func TestC10(t *testing.T) {
 			cs.Prelude = rapid.SampledFrom([]string{"", "literal-of-meta"}).Draw(rt, "prelude")
 		}
 		nExtra := rapid.IntRange(0, 5).Draw(rt, "nExtra")
+		if rapid.IntRange(0, 9).Draw(rt, "longImportList") == 0 {
+			// a long import list in front of the guarded imports
+			n := rapid.IntRange(60, 400).Draw(rt, "nLong")
+			for i := 0; i < n; i++ {
+				cs.Extra = append(cs.Extra, fmt.Sprintf("%q", fmt.Sprintf("example.com/many/p%03d", i)))
+			}
+		}
 		for i := 0; i < nExtra; i++ {
 			name := rapid.SampledFrom([]string{"", "", "ex", "_", ".", "nm", "mv"}).Draw(rt, fmt.Sprintf("en%d", i))
 			path := rapid.SampledFrom([]string{"example.com/extra/a", "example.com/guarded", "example.com/guarded/p/sub", "p", "guarded/p", "os", "example.com/second"}).Draw(rt, fmt.Sprintf("ep%d", i))
